@@ -343,6 +343,9 @@ def assume(t, c, pol, memo=None):
 def unop(op, x):
     if op == "not" and x.op == "un" and x.a[0] == "not":
         return x.a[1]
+    if op == "not" and x.op == "call" and callee_name(x.a[0]) == "np.all" and len(x.a[1]) == 1 and not x.a[2] and x.a[1][0].op == "cmp" and x.a[1][0].a[0] == "==":
+        c_ = x.a[1][0]
+        return call(ext("np.any"), (cmp("!=", c_.a[1], c_.a[2]),))  # not (a == b).all() is (a != b).any()
     if op == "-" and x.op == "const" and isinstance(x.a[0], float):
         return const(-x.a[0])
     return mk("un", op, x)
@@ -526,6 +529,8 @@ def call(fn, args=(), kw=()):
         return binop("&" if name == "np.logical_and" else "|", args[0], args[1])  # on Boolean arrays: the operator form
     if name == "np.logical_not" and len(args) == 1 and not kw and _boolean_valued(args[0]):
         return unop("~", args[0])
+    if name == "np.array_equal" and len(args) == 2 and not kw:
+        return call(ext("np.all"), (cmp("==", args[0], args[1]),))  # (for operands of one shape, as everywhere in this code)
     if name == "np.invert" and len(args) == 1 and not kw and _boolean_valued(args[0]):
         return unop("~", args[0])
     if name == "np.concatenate" and len(args) == 1 and not kw and args[0].op == "call" and callee_name(args[0].a[0]) == "np.atleast_1d" and len(args[0].a[1]) >= 2 and not args[0].a[2]:
